@@ -1,8 +1,13 @@
 """C01 -- every submitted job resolves exactly once, with its own outcome."""
-from checks import feedcommon, poolcommon, poolreal
+from checks import c02, feedcommon, poolcommon, poolreal
+
+# the clauses of C01 that speak about the parts of map / imap jobs, in MapAsm.tla's terms
+PARTS = ['MapCallbacksOnce', 'MapReadyWhen', 'MapComplete', 'ImapComplete', 'ImapuNoDupNoAlien',
+         'ImapItemExact', 'MapStable']
 
 
 def main(ctx):
     feedcommon.run(ctx, 'C01')
     poolcommon.run(ctx, 'C01')
+    c02.main(ctx, only=PARTS, known=False)
     poolreal.run(ctx, 'C01')
